@@ -145,7 +145,18 @@ func (enc *Encoder) writePtr(v interface{}, encode func(m ValueEncoder, v interf
 	case reflect.Map:
 		encode(mapenc, v)
 	case reflect.Ptr:
+		// a pointer to a pointer is a level of nesting like any other (see writeValue): a
+		// cycle of nothing but pointers (type P *P) would be followed for ever
+		if enc.depth >= maxDepth {
+			if enc.Error == nil {
+				enc.Error = ErrNestedTooDeep
+			}
+			enc.WriteNil()
+			return
+		}
+		enc.depth++
 		encode(ptrenc, e.Interface())
+		enc.depth--
 	case reflect.Interface:
 		encode(intfenc, e.Interface())
 	default:
